@@ -34,9 +34,10 @@ var seqOps = []string{"new", "import", "chpw", "setlabel", "setdefault", "chsig"
 	"export", "export-clone", "export-low", "clone-mutate", "getdata"}
 
 var (
-	pwA = []byte("pw-A")
-	pwB = []byte("pw-B\x00é")
-	pwX = []byte("pw-a") // the "other" password (case neighbour of pwA, not an HMAC twin of either)
+	// both passwords carry whitespace / non-text bytes: every password-taking operation must use them verbatim
+	pwA = []byte("pw-A\n")
+	pwB = []byte(" pw\tB\x00\xff ")
+	pwX = []byte("pw-a\n") // an "other" password (case neighbour of pwA, not an HMAC twin of either)
 )
 
 type macct struct {
@@ -143,6 +144,9 @@ func (e *seqEnv) step(op string) (ok bool, bad string) {
 		if bytes.Equal(a.pw, pwA) {
 			np = pwB
 		}
+		if err := e.cli.ChangePassword(a.addr, bytes.TrimSpace(a.pw), np); err == nil {
+			return true, "ChangePassword-accepted-trimmed-old-password"
+		}
 		if err := e.cli.ChangePassword(a.addr, a.pw, np); err != nil {
 			return true, "ChangePassword-failed: " + err.Error()
 		}
@@ -194,6 +198,9 @@ func (e *seqEnv) step(op string) (ok bool, bad string) {
 			i--
 		}
 		a := e.live[i]
+		if acc, err := e.cli.DeleteAccount(a.addr, bytes.TrimSpace(a.pw)); err == nil || acc != nil {
+			return true, "DeleteAccount-accepted-trimmed-password"
+		}
 		acc, err := e.cli.DeleteAccount(a.addr, a.pw)
 		if err != nil || acc == nil {
 			return true, "DeleteAccount-failed: " + fmt.Sprint(err)
@@ -287,6 +294,9 @@ func checkClient(cli account.Client, accts []macct, def string, full, wrongPw bo
 		if wrongPw {
 			if acc2, err := cli.GetAccountByAddress(a.addr, pwX); err == nil || acc2 != nil {
 				return "other-password-accepted"
+			}
+			if acc2, err := cli.GetAccountByAddress(a.addr, bytes.TrimSpace(a.pw)); err == nil || acc2 != nil {
+				return "trimmed-password-accepted"
 			}
 		}
 		if full {
